@@ -57,10 +57,13 @@ Record cstate := CState {
   curstep : Z; curpartial : bool;
   is_retry : bool;
   exc : bool;            (* an unexpected exception ended the current loop iteration *)
-  force_retry : bool
+  force_retry : bool;
+  poison : list (N * (N * Z))   (* (cache index, key): keys once appended twice to a cache list
+                                   ([DataObjectList._inconsistencies]): dropped, and every later
+                                   append of the key to that list is ignored until the restart *)
 }.
 Definition cstate0 : cstate :=
-  CState ∅ ∅ ∅ ∅ ∅ ∅ ∅ ∅ [] 0 [] 0 false false false false.
+  CState ∅ ∅ ∅ ∅ ∅ ∅ ∅ ∅ [] 0 [] 0 false false false false [].
 
 (** ** remote -> local conversion (plain mappings) *)
 Definition conv_obj (ct : ctype) (r : obj) : obj :=
@@ -89,8 +92,15 @@ Definition convert (c : ccfg) (allow_empty : bool) (e : cev) : option cev :=
   end.
 
 (** ** caches *)
-Definition wappend (w : world) (i : N * Z) (o : obj) : world :=
-  match w !! i with None => <[i := o]> w | Some _ => delete i w end.   (* duplicate => dropped *)
+(** [DataObjectList.append]: a key appended while present is dropped and remembered as an
+    inconsistency; appends of a remembered key are ignored. Cache indices follow the
+    order r_live, r_trash, rc_live, rc_trash, l_live, l_trash, lc_live, lc_trash. *)
+Definition poisoned (p : list (N * (N * Z))) (idx : N) (i : N * Z) : bool :=
+  existsb (fun x => N.eqb (fst x) idx && N.eqb (fst (snd x)) (fst i) && Z.eqb (snd (snd x)) (snd i)) p.
+Definition wappend (p : list (N * (N * Z))) (idx : N) (w : world) (i : N * Z) (o : obj)
+  : world * list (N * (N * Z)) :=
+  if poisoned p idx i then (w, p) else
+  match w !! i with None => (<[i := o]> w, p) | Some _ => (delete i w, (idx, i) :: p) end.
 Definition lookup2 (a b : world) (i : N * Z) : option (bool * obj) :=   (* true = found in [a] *)
   match a !! i with Some o => Some (true, o) | None =>
   match b !! i with Some o => Some (false, o) | None => None end end.
@@ -192,7 +202,7 @@ Definition replay_older (evs : list (option cev)) (cur : option obj) : option ob
 
 Definition set_queue (st : cstate) (q : list qentry) : cstate :=
   CState (r_live st) (r_trash st) (rc_live st) (rc_trash st) (l_live st) (l_trash st) (lc_live st) (lc_trash st)
-         q (ncall st) (calls st) (curstep st) (curpartial st) (is_retry st) (exc st) (force_retry st).
+         q (ncall st) (calls st) (curstep st) (curpartial st) (is_retry st) (exc st) (force_retry st) (poison st).
 
 Definition remediate (c : ccfg) (st : cstate) (q : list qentry) (num : Z) : list qentry :=
   match cc_remed c with
@@ -245,7 +255,7 @@ From RecordUpdate Require Import RecordSet.
 Import RecordSetNotations.
 #[export] Instance eta_cstate : Settable _ :=
   settable! CState <r_live; r_trash; rc_live; rc_trash; l_live; l_trash; lc_live; lc_trash; queue;
-                    ncall; calls; curstep; curpartial; is_retry; exc; force_retry>.
+                    ncall; calls; curstep; curpartial; is_retry; exc; force_retry; poison>.
 
 Section Proc.
 Variable c : ccfg.
@@ -270,6 +280,23 @@ Definition call_handler (st : cstate) (hk : hkind) (t : N) (k : Z) (attrs : ekin
   (st1 <| ncall := S (ncall st) |> <| calls := calls st ++ [cl] |>,
    match out with HOk => true | _ => false end).
 
+Definition app_r_live (st : cstate) (i : N * Z) (o : obj) : cstate :=
+  let '(w, p) := wappend (poison st) 0 (r_live st) i o in st <| r_live := w |> <| poison := p |>.
+Definition app_r_trash (st : cstate) (i : N * Z) (o : obj) : cstate :=
+  let '(w, p) := wappend (poison st) 1 (r_trash st) i o in st <| r_trash := w |> <| poison := p |>.
+Definition app_rc_live (st : cstate) (i : N * Z) (o : obj) : cstate :=
+  let '(w, p) := wappend (poison st) 2 (rc_live st) i o in st <| rc_live := w |> <| poison := p |>.
+Definition app_rc_trash (st : cstate) (i : N * Z) (o : obj) : cstate :=
+  let '(w, p) := wappend (poison st) 3 (rc_trash st) i o in st <| rc_trash := w |> <| poison := p |>.
+Definition app_l_live (st : cstate) (i : N * Z) (o : obj) : cstate :=
+  let '(w, p) := wappend (poison st) 4 (l_live st) i o in st <| l_live := w |> <| poison := p |>.
+Definition app_l_trash (st : cstate) (i : N * Z) (o : obj) : cstate :=
+  let '(w, p) := wappend (poison st) 5 (l_trash st) i o in st <| l_trash := w |> <| poison := p |>.
+Definition app_lc_live (st : cstate) (i : N * Z) (o : obj) : cstate :=
+  let '(w, p) := wappend (poison st) 6 (lc_live st) i o in st <| lc_live := w |> <| poison := p |>.
+Definition app_lc_trash (st : cstate) (i : N * Z) (o : obj) : cstate :=
+  let '(w, p) := wappend (poison st) 7 (lc_trash st) i o in st <| lc_trash := w |> <| poison := p |>.
+
 Definition crash (st : cstate) : cstate * bool := (st <| exc := true |>, false).
 
 Definition new_obj (k : ekind) : obj := match k with KAdded a => a | _ => ∅ end.
@@ -281,10 +308,10 @@ Definition local_added (st : cstate) (lev : cev) (sim : bool) : cstate * bool :=
   let '(st1, ok) := if sim then (st, true)
                     else call_handler st HAdded (ce_t lev) (ce_k lev) (ce_kind lev) (Some o) None in
   if negb ok then (st1, false) else
-  let st2 := if sim then st1 else st1 <| l_live := wappend (l_live st1) i o |> in
+  let st2 := if sim then st1 else app_l_live st1 i o in
   (match lc_live st2 !! i with
    | Some _ => st2
-   | None => st2 <| lc_live := <[i := o]> (lc_live st2) |> end, true).
+   | None => app_lc_live st2 i o end, true).
 
 Definition local_recycled (ct : ctype) (st : cstate) (lev : cev) (sim : bool) : cstate * bool :=
   let i := ce_id lev in
@@ -298,9 +325,9 @@ Definition local_recycled (ct : ctype) (st : cstate) (lev : cev) (sim : bool) : 
                         else call_handler st HRecycled (ce_t lev) (ce_k lev) (KAdded tr) (Some tr) None in
       if negb ok then (st1, false) else
       let st2 := if sim then st1
-                 else st1 <| l_trash := delete i (l_trash st1) |> <| l_live := wappend (l_live st1) i tr |> in
+                 else app_l_live (st1 <| l_trash := delete i (l_trash st1) |>) i tr in
       let st3 := match trc with
-                 | Some x => st2 <| lc_trash := delete i (lc_trash st2) |> <| lc_live := wappend (lc_live st2) i x |>
+                 | Some x => app_lc_live (st2 <| lc_trash := delete i (lc_trash st2) |>) i x
                  | None => st2 end in
       let d := odiff o tr in
       if md_empty d || sim then (st3, true)
@@ -341,11 +368,11 @@ Definition local_trashed (ct : ctype) (st : cstate) (lev : cev) (sim : bool) : c
     if sim then (st1, true) else
     match l_live st1 !! i with
     | None => crash st1
-    | Some o => (st1 <| l_live := delete i (l_live st1) |> <| l_trash := wappend (l_trash st1) i (set_ts ct (ce_ts lev) o) |>, true)
+    | Some o => (app_l_trash (st1 <| l_live := delete i (l_live st1) |>) i (set_ts ct (ce_ts lev) o), true)
     end in
   if negb ok2 then (st2, false) else
   (match lc with
-   | Some o => st2 <| lc_live := delete i (lc_live st2) |> <| lc_trash := wappend (lc_trash st2) i (set_ts ct (ce_ts lev) o) |>
+   | Some o => app_lc_trash (st2 <| lc_live := delete i (lc_live st2) |>) i (set_ts ct (ce_ts lev) o)
    | None => st2 end, true).
 
 Definition local_removed (st : cstate) (lev : cev) (sim : bool) : cstate * bool :=
@@ -413,10 +440,10 @@ Definition remote_added (f : nat) (st : cstate) (rev : cev) (lev : option cev) (
   let o := new_obj (ce_kind rev) in
   let '(st1, ok) := process_local f st (Some rev) lev false sim in
   if negb ok then (st1, false) else
-  let st2 := if sim then st1 else st1 <| r_live := wappend (r_live st1) i o |> in
+  let st2 := if sim then st1 else app_r_live st1 i o in
   (match rc_live st2 !! i with
    | Some _ => st2
-   | None => st2 <| rc_live := <[i := o]> (rc_live st2) |> end, true).
+   | None => app_rc_live st2 i o end, true).
 
 Definition remote_recycled (f : nat) (st : cstate) (rev : cev) (lev : option cev) (sim : bool) : cstate * bool :=
   let i := ce_id rev in
@@ -425,10 +452,10 @@ Definition remote_recycled (f : nat) (st : cstate) (rev : cev) (lev : option cev
   if negb ok then (st1, false) else
   let st2 := if sim then st1 else st1 <| r_trash := delete i (r_trash st1) |> in
   let st3 := st2 <| rc_trash := delete i (rc_trash st2) |> in
-  let st4 := if sim then st3 else st3 <| r_live := wappend (r_live st3) i o |> in
+  let st4 := if sim then st3 else app_r_live st3 i o in
   (match rc_live st4 !! i with
    | Some _ => st4
-   | None => st4 <| rc_live := <[i := o]> (rc_live st4) |> end, true).
+   | None => app_rc_live st4 i o end, true).
 
 Definition remote_modified (f : nat) (st : cstate) (rev : cev) (lev : option cev) (sim : bool) : cstate * bool :=
   let i := ce_id rev in
@@ -461,11 +488,11 @@ Definition remote_trashed (ct : ctype) (f : nat) (st : cstate) (rev : cev) (lev 
     if sim then (st1, true) else
     match ro with
     | None => crash st1
-    | Some o => (st1 <| r_live := delete i (r_live st1) |> <| r_trash := wappend (r_trash st1) i (set_ts ct (ce_ts rev) o) |>, true)
+    | Some o => (app_r_trash (st1 <| r_live := delete i (r_live st1) |>) i (set_ts ct (ce_ts rev) o), true)
     end in
   if negb ok2 then (st2, false) else
   (match rc with
-   | Some o => st2 <| rc_live := delete i (rc_live st2) |> <| rc_trash := wappend (rc_trash st2) i (set_ts ct (ce_ts rev) o) |>
+   | Some o => app_rc_trash (st2 <| rc_live := delete i (rc_live st2) |>) i (set_ts ct (ce_ts rev) o)
    | None => st2 end, true).
 
 Definition remote_removed (f : nat) (st : cstate) (rev : cev) (lev : option cev) (sim : bool) : cstate * bool :=
